@@ -293,6 +293,20 @@ def step (cfg : Config S) (P : NodeId → Proto S σ) (w : World S σ) : World S
         let w := execStep cfg P e rest w
         if isDone cfg w then (finalise cfg P w, false) else (w, true)
 
+/-- `step_simulation` when the callback of the executed event lets an exception escape: the event is
+    consumed and its callback ran as far as it got (the protocol's program IS what it did before raising),
+    but the after-step hooks, the iteration counter and the completion check of that call are skipped - the
+    caller gets the exception. (The lifecycle callbacks are assumed not to raise.) -/
+def stepRaised (cfg : Config S) (P : NodeId → Proto S σ) (w : World S σ) : World S σ :=
+  if w.finalized then w
+  else
+    let w := if w.initialized then w else initialise cfg P w
+    if isDone cfg w then finalise cfg P w
+    else match w.loop.queue with
+      | [] => w
+      | e :: rest =>
+        execEv cfg P e { w with loop := { w.loop with queue := rest, now := e.ts }, rexecuted := e :: w.rexecuted }
+
 /-- `n` manual calls of `step_simulation` (return values discarded) -/
 def steps (cfg : Config S) (P : NodeId → Proto S σ) : Nat → World S σ → World S σ
   | 0, w => w
